@@ -49,7 +49,7 @@ COMPONENTS = {
     "real": ["ExternalOptimizer.start/_handle_request", "_PluginOptimizer.run/_request/_callback", "_JSONPipeCommunicator", "EnsembleOptimizer", "SciPy plug-in + scipy.optimize in the child (45%)", "config dump -> JSON -> re-validation"],
     "stub": ["SimKernel (FIFOs, selector, process table, signals, clock, scheduler)", "sim/scripted optimizer in the child (55%)", "SimEvaluator"],
 }
-PROBES = ["kill_right_after_message", "evaluator_raised_with_dead_child", "real_backend_equal_within_rounding", "equality_compared", "kill_child", "kill_while_parent_evaluating", "child_raises", "child_exits_nonzero", "evaluator_raises",
+PROBES = ["delimiter_straddles_boundary", "kill_right_after_message", "evaluator_raised_with_dead_child", "real_backend_equal_within_rounding", "equality_compared", "kill_child", "kill_while_parent_evaluating", "child_raises", "child_exits_nonzero", "evaluator_raises",
           "evaluator_aborts", "max_functions", "stall", "spawn_fails", "small_pipe", "short_write", "large_message_runs",
           "messages_exchanged", "child_dead_checked", "real_scipy_child", "simulated_seconds"]
 REAL = ["slsqp", "l-bfgs-b", "cobyla", "nelder-mead", "differential_evolution"]
@@ -152,6 +152,34 @@ def run_external(scn: dict, kfaults: list[dict], capacity: int = 65536, kseed: i
     return k, parent, holder
 
 
+def _tune_initial_values(fs: dict, capacity: int, j: int) -> None:
+    """Add digits to the initial values until the JSON text of the 'initial_values' answer ends j bytes before a
+    multiple of the pipe capacity: the delimiter that follows is then cut in two by a partial transfer."""
+    import json as _json
+
+    x0 = list(fs["configs"][0]["variables"]["initial_values"])
+    target = (capacity - j) % capacity
+
+    def length(vals):
+        return len(_json.dumps([float(v) for v in vals])) + 1  # + the newline in front of the delimiter
+
+    cur = length(x0) % capacity
+    need = (target - cur) % capacity
+    i = 0
+    while need > 0 and i < len(x0):
+        add = min(need, 9)
+        # appending digits 1..9 after the 3 decimals keeps the value inside its neighbourhood and its repr exact
+        txt = f"{x0[i]:.3f}" + "1" * add
+        new = float(txt)
+        grown = len(repr(new)) - len(repr(float(x0[i])))
+        if 0 < grown <= need:
+            x0[i] = new
+            need -= grown
+        i += 1
+    fs["configs"][0]["variables"]["initial_values"] = x0
+    fs["straddle_residue"] = need
+
+
 def _outcome(ctx) -> tuple:
     ex = ctx.exits[0] if ctx is not None and ctx.exits else None
     return ex
@@ -199,7 +227,13 @@ def execute(scn: dict) -> dict:
         elif member == 8:
             fault = {"kind": "evaluator_aborts", "m": frng.randrange(0, max(1, M))}
         elif member == 9:
-            fault = {"kind": "small_pipe", "capacity": frng.choice([4096, 8192])} if scn["large"] else {"kind": "max_functions", "value": frng.randint(1, max(1, M))}
+            if scn["large"]:
+                fault = {"kind": "small_pipe", "capacity": frng.choice([4096, 8192])}
+                if fault["capacity"] == 4096 or frng.random() < 0.5:
+                    # the message length is tuned so that its end-of-message delimiter is cut by a pipe-buffer boundary
+                    fault = {"kind": "small_pipe", "capacity": 4096, "straddle": frng.randint(1, 10)}
+            else:
+                fault = {"kind": "max_functions", "value": frng.randint(1, max(1, M))}
         elif member == 10:
             fault = {"kind": "short_write", "fraction": frng.choice([0.3, 0.6, 0.9]), "proc": frng.choice(["parent", "child"])} if scn["large"] else \
                 {"kind": "stall", "proc": frng.choice(["parent", "child"]), "at": frng.randrange(1, max(2, S if frng.random() < 0.5 else 50)), "duration": frng.choice([5.0, 15.0, 40.0])}
@@ -250,6 +284,9 @@ def execute(scn: dict) -> dict:
         elif kind == "small_pipe":
             capacity = fault["capacity"]
             env_fault = True
+            if fault.get("straddle"):
+                _tune_initial_values(fs, capacity, fault["straddle"])
+                probe("delimiter_straddles_boundary")
         elif kind == "short_write":
             kfaults.append({"kind": "short_write", "fraction": fault["fraction"], "proc": fault["proc"]})
             env_fault = True
